@@ -3,7 +3,7 @@
 (* C12, direction code -> spec: histories of builds RECORDED from the real  *)
 (* library (one process per history, harness/evalns.py) are validated       *)
 (* against AyEvalNS.  One ndjson line per history:                          *)
-(*   [tid, builds |-> << [prog (descriptor), cfg, syms, file,               *)
+(*   [tid, builds |-> << [prog (index into C12_PROGS), cfg, syms, file,     *)
 (*                        obs |-> [kind, cause, arg, seen, modules,         *)
 (*                                 defsyms]] .. >>]                         *)
 (* obs.seen = the <<name, source, version>> triples readable off the value  *)
@@ -20,6 +20,9 @@ EXTENDS Naturals, Sequences, FiniteSets, TLC, Json, IOUtils
 CONSTANTS ModuleCacheKeepsCtx, BytecodePatch312, NoFilenameCompile, BuiltinBeforeCfg, SymbolsLeak
 
 VARIABLES tid, l, stT, res, stop
+
+Progs == JsonDeserialize(IOEnv.C12_PROGS).progs       \* descriptors of the recorded programs
+Prog(i) == Progs[i]
 
 T == INSTANCE AyEvalNS WITH st <- stT
 
@@ -41,7 +44,7 @@ Mismatch(o, obs) ==
     ELSE ""
 
 Compact(o) == [kind |-> o.kind, cause |-> o.cause, arg |-> o.arg,
-               res |-> [i \in 1..Len(o.log) |-> <<o.log[i].name, o.log[i].val.src, o.log[i].val.ver>>]]
+               res |-> [i \in 1..Len(o.log) |-> <<o.log[i].name, o.log[i].val.src, o.log[i].val.ver, o.log[i].via>>]]
 
 Start == /\ ~stop /\ stT.pc = "idle" /\ l <= Len(Tr.builds)
          /\ T!Build(Bd.prog, Bd.cfg, Bd.syms, Bd.file)
